@@ -828,6 +828,8 @@ class TexExpr(object):
         TexExpr('textbf', ['asdf', 'world', 'hello'])
         """
         self._assert_supports_contents()
+        if i < 0:
+            i = max(len(self._contents) + i, 0)
         for j, expr in enumerate(exprs):
             if isinstance(expr, TexExpr):
                 expr.parent = self
